@@ -36,3 +36,10 @@ Theorem C10_api_ReadRegisterList_collects : forall c rl cn v G e s', reglist_ok 
 Proof. exact go_ReadRegisterList_collects. Qed.
 Print Assumptions C10_api_ReadRegisterList_collects.
 
+(* ... on the register list of every product id *)
+Theorem C10_api_read_product_lists : forall c id cn v,
+  readlist_rel (go_ReadRegisterList c tt (snd (obs_reglist id)) (mkA (mkD v false) [] cn))
+               (GV.Api.Maps.read_register_list c (snd (obs_reglist id)) cn v).
+Proof. exact go_read_product_lists. Qed.
+Print Assumptions C10_api_read_product_lists.
+
